@@ -47,6 +47,8 @@ def transfer_facts(st, res, src):
 def _sorted(ip, st, args, kwargs):
     xs = args[0]
     key = kwargs.get("key")
+    if set(kwargs) - {"key"} or len(args) > 1:
+        raise Unsupported("sorted(..., reverse=...) is not modelled")
     if not isinstance(xs, JVal):
         raise Unsupported("sorted over %r" % (xs,))
     for st1, lst in L.narrow(ip, st, xs):
